@@ -50,6 +50,7 @@ class C06(Prop):
     id = "C06"
     trace_module = "TraceStab"
     trace_cfg = "TraceStab.cfg"
+    suite_family = ('stab', ('steps',))
     backends = ("py",)
     chunk = 400
     assumptions = [
